@@ -789,6 +789,12 @@ func gopen(g *GoBackNConn) bool {
 //@   ensures @C12 implies(!old(oncedone(&g.closeOnce)) && g.resendTicker != nil,
 //@           exists(old(nevents("stop.ticker")), nevents("stop.ticker"), func(i int) bool { return eventref[*time.Ticker]("stop.ticker", i) == g.resendTicker }))
 
+// VerifConnUsable is the precondition of Send and Recv, exported (in the verif
+// build only) so that the contracts of the mailbox package can state it.
+func VerifConnUsable(g *GoBackNConn) bool {
+	return g != nil && g.cfg != nil && tminv(g.timeoutManager) && g.cfg.maxChunkSize >= 0
+}
+
 // ---- chunking (C14) -------------------------------------------------------------
 
 // chunkSent: the i-th channel send of this goroutine handed the send loop a
@@ -825,7 +831,7 @@ func chunkEnd(data []byte, first, n int) int {
 }
 
 //@ func (g *GoBackNConn) Send(data []byte) (err error)
-//@   props C14 C12 C18
+//@   props C14 C12 C18 C15
 //@   modifies chanlog[*PacketData](), chanlog[struct{}](), chanlog[time.Time](), events("*")
 //@   acquires TimeoutManager.mu
 //@   requires g != nil && g.cfg != nil && tminv(g.timeoutManager) && g.cfg.maxChunkSize >= 0
@@ -883,7 +889,7 @@ func appended(b, a, p []byte) bool {
 }
 
 //@ func (g *GoBackNConn) Recv() (b []byte, err error)
-//@   props C14 C12 C18
+//@   props C14 C12 C18 C15
 //@   modifies chanlog[*PacketData](), chanlog[struct{}](), chanlog[time.Time](), events("*")
 //@   acquires TimeoutManager.mu
 //@   requires g != nil && g.cfg != nil && tminv(g.timeoutManager)
@@ -898,7 +904,8 @@ func appended(b, a, p []byte) bool {
 //@   ensures @C14 implies(err == nil, nrecv[*PacketData]() >= old(nrecv[*PacketData]())+1 && recvon(nrecv[*PacketData]()-1, g.recvDataChan) &&
 //@           recvval[*PacketData](nrecv[*PacketData]()-1).FinalChunk && len(g.recvBuf) == 0 && extends(b, old(g.recvBuf)))
 //@   ensures @C14 implies(err == nil, forall(old(nrecv[*PacketData]()), nrecv[*PacketData]()-1, func(i int) bool { return recvon(i, g.recvDataChan) && !recvval[*PacketData](i).FinalChunk }))
-//@   ensures @C14 implies(err != nil, isnil(b))
+//@   ensures @C14,C15 implies(err != nil, isnil(b))
+//@   ensures @C15 implies(err == nil, fresh(b) || isnil(b))
 //@   ensures @C14 implies(err != nil, extends(g.recvBuf, old(g.recvBuf)))
 //@   ensures @C12 implies(old(closed(g.quit)), err != nil && nrecvon(g.recvDataChan) == old(nrecvon(g.recvDataChan)))
 
